@@ -656,11 +656,12 @@ def r_flush(prog, R):
         for st in vs.states_at(b, i):
             nret += 1
             rs = vs.eval(el.get("e"), st[0])
-            if (rs is None or "ARES_SUCCESS" in rs) and (st[1][0] or st[1][1] == "maybe"):
+            # whatever the function reports: servers that were added, removed or moved before it gave up (allocation failure) have changed the list
+            if st[1][0] or st[1][1] == "maybe":
                 bad = el
     r.require(nret >= 2, "ares_servers_update: value-set analysis reached %d return states" % nret)
     if bad is not None:
-        r.viol("update:mutation=>flush", u.name, u.loc(bad), "ares_servers_update can return success after adding, removing or moving a server without flushing the cache")
+        r.viol("update:mutation=>flush", u.name, u.loc(bad), "ares_servers_update can return (with success, or with an error after part of the change was made) after adding, removing or moving a server without flushing the cache")
     else:
         r.ok("update:mutation=>flush", u.loc(u.ln))
     rt = prog.func("ares_reinit_thread")
